@@ -416,6 +416,14 @@ func CheckC14(r *Report) {
 			if r.TooMany() {
 				return
 			}
+			if maxExec == 0 {
+				// safety net against a body menu / an edited tree that makes a phase explode: an execution cap per
+				// worker process; hitting it is reported as exhaustive:false, never as an alarm
+				maxExec = 1500000
+				if thorough {
+					maxExec = 40000000
+				}
+			}
 			tot, per, err := runSched(bin, scenarios, bound, 16, maxExec, fine)
 			if err != nil {
 				r.Note("%s: %v", name, err)
@@ -432,7 +440,7 @@ func CheckC14(r *Report) {
 				}
 			}
 			phase[name] = map[string]any{"scenarios": len(scenarios), "executions": tot.Executions, "schedule_points": tot.Points, "max_executions_in_one_scenario": maxPer,
-				"preemption_bound": bound, "max_preemptions_seen": tot.MaxPreempt, "final_pool_size_variants": len(tot.PoolSizes), "replay_divergences": tot.Diverged}
+				"deviation_bound": bound, "max_deviations_seen": tot.MaxPreempt, "final_pool_size_variants": len(tot.PoolSizes), "replay_divergences": tot.Diverged}
 			total.merge(tot)
 			if len(tot.Sample) > 0 {
 				r.Sample(map[string]any{"phase": name, "execution": tot.Sample})
@@ -495,7 +503,23 @@ func CheckC14(r *Report) {
 			}
 		}
 		rec(nil)
-		add(fmt.Sprintf("sequential histories up to depth %d (complete, pool answers explored)", depth), s, -1, 0)
+		var sLight, sHeavyH []string
+		for _, sc := range s {
+			hv := false
+			for _, c := range strings.Split(sc, ",") {
+				bi, _ := strconv.Atoi(c)
+				if heavy[bi] {
+					hv = true
+				}
+			}
+			if hv {
+				sHeavyH = append(sHeavyH, sc)
+			} else {
+				sLight = append(sLight, sc)
+			}
+		}
+		add(fmt.Sprintf("sequential histories of light bodies up to depth %d (complete, all pool answers)", depth), sLight, -1, 0)
+		add(fmt.Sprintf("sequential histories containing a multi-parse body up to depth %d (at most 2 non-default pool answers)", depth), sHeavyH, 2, 0)
 		// (3) 2 threads x 2 calls
 		menu22 := []int{0, 1, 7, 12}
 		if thorough {
@@ -892,8 +916,8 @@ func coldConcurrent(r *Report, bin string, thorough bool) map[string]any {
 			if i >= len(it.prefix) {
 				for alt := 1; alt < d.N; alt++ {
 					c := pre
-					if d.S && d.P {
-						c++
+					if !d.S || d.P {
+						c++ // a preemption, or a non-default pool answer
 					}
 					if c > bound {
 						continue
@@ -907,7 +931,7 @@ func coldConcurrent(r *Report, bin string, thorough bool) map[string]any {
 					queue <- item{it.scn, np}
 				}
 			}
-			if d.S && d.P && d.C != 0 {
+			if d.C != 0 && (!d.S || d.P) {
 				pre++
 			}
 		}
@@ -931,5 +955,5 @@ func coldConcurrent(r *Report, bin string, thorough bool) map[string]any {
 	r.States.Add(execs)
 	r.Traces.Add(execs)
 	r.Transitions.Add(points)
-	return map[string]any{"scenarios": len(scenarios), "executions_each_in_its_own_fresh_process": execs, "decisions": points, "preemption_bound": bound, "violations": viol}
+	return map[string]any{"scenarios": len(scenarios), "executions_each_in_its_own_fresh_process": execs, "decisions": points, "deviation_bound": bound, "violations": viol}
 }
